@@ -11,6 +11,17 @@ From Coq Require Import List Arith NArith ZArith Bool String Ascii.
 Import ListNotations.
 Require Import PV.Comb.PState PV.Peg.Ast PV.Peg.Spec PV.Valid.Validator.
 
+(* no node tags (what the meta-parser produces without the grammar-extras feature) *)
+Fixpoint tag_free (e : expr) : bool :=
+  match e with
+  | ENodeTag _ _ => false
+  | EPosPred x | ENegPred x | ERep x | ERepOnce x | ERepExact x _ | ERepMin x _ | ERepMax x _
+  | ERepMinMax x _ _ | EOpt x | EPush x => tag_free x
+  | ESeq l r | EChoice l r => tag_free l && tag_free r
+  | _ => true
+  end.
+Definition no_tags (G : grammar) : bool := forallb (fun r => tag_free (rexpr r)) G.
+
 Section Known.
 Variable G : grammar.
 
@@ -37,13 +48,17 @@ Definition ws_reaches_nonatomic : bool :=
 
 (* single-character built-in rules (when not shadowed by a user rule in the validator's eyes) *)
 Definition char_builtin (uprop_name : name -> bool) (n : name) : bool :=
+  negb (str_eqb n (nm "SOI") || str_eqb n (nm "EOI")) &&
   match ascii_builtin n with Some _ => true | None => str_eqb n (nm "NEWLINE") || uprop_name n end.
 
 Fixpoint swc_e (uprop_name : name -> bool) (rec : expr -> bool) (e : expr) : bool :=
   match e with
   | EStr s | EInsens s => negb (is_nil s)
   | ERange _ _ => true
-  | EIdent n => match find_rule G n with Some r => rec (rexpr r) | None => char_builtin uprop_name n end
+  | EIdent n => match find_rule G n with
+                | Some r => negb (str_eqb n (nm "SOI") || str_eqb n (nm "EOI")) && rec (rexpr r)
+                | None => char_builtin uprop_name n
+                end
   | ESeq l _ => swc_e uprop_name rec l
   | EChoice l r => swc_e uprop_name rec l && swc_e uprop_name rec r
   | ERepOnce x | EPush x | ENodeTag x _ => swc_e uprop_name rec x
